@@ -176,6 +176,7 @@ def oracles(source, four, rows, ob):
 
 
 def run(ctx):
+    C.source_tie(ctx, 'C17', [('taurex/util/util.py', 'wnwidth_to_wlwidth', 'gen_wnwidth_to_wlwidth')])
     rng = ctx.rng
     tmpdir = os.path.join(C.CACHE, 'c17_%d' % os.getpid())
     os.makedirs(tmpdir, exist_ok=True)
